@@ -194,6 +194,26 @@ fn mode_escape(rng: &mut Rng, n: u64) {
             else if sample[0] != expected_line { oracle = "bad:sample line differs from name{key=\"<escaped>\",rank=\"1\"} 1".into(); }
         }
         if esc.chars().any(|c| c.is_control()) { oracle = "bad:raw control character in the escaped label".into(); }
+        // what a Prometheus text-format reader sees: after `key="` characters are taken up to the first quote that is not
+        // preceded by a backslash (a backslash takes the next character with it); that must be exactly the escaped key,
+        // and what follows must be the rank label and the value - no injected quote, label or line
+        if oracle == "ok" && s.len() <= 256 && sample.len() == 1 {
+            let prefix = "throttlecrab_top_denied_keys{key=\"";
+            let rest: Vec<char> = sample[0][prefix.len()..].chars().collect();
+            let mut i = 0;
+            let mut scanned = String::new();
+            let mut closed = false;
+            while i < rest.len() {
+                let c = rest[i];
+                if c == '"' { closed = true; i += 1; break; }
+                if c == '\\' { if i + 1 >= rest.len() { break; } scanned.push(c); scanned.push(rest[i + 1]); i += 2; continue; }
+                scanned.push(c); i += 1;
+            }
+            let tail: String = rest[i.min(rest.len())..].iter().collect();
+            if !closed || scanned != esc || tail != ",rank=\"1\"} 1" {
+                oracle = format!("bad:a label scanner reads key={:?} and then {:?} from the sample line (the key swallowed or injected a quote / label)", scanned, tail);
+            }
+        }
         let cps: Vec<String> = s.chars().map(|c| (c as u32).to_string()).collect();
         let ecps: Vec<String> = esc.chars().map(|c| (c as u32).to_string()).collect();
         println!("{{\"mode\":\"escape\",\"i\":{i},\"key\":[{}],\"escaped\":[{}],\"oracle\":{:?}}}", cps.join(","), ecps.join(","), oracle);
